@@ -86,7 +86,9 @@ def sf_prefix_of(ex, st, a, b):
     functions are unfolded by the VC generator); when it is a GOAL only the primitive is used."""
     if getattr(ex, "assuming", False):
         j = z3.Int("pf!q")
-        return z3.And(z3.PrefixOf(a, b), z3.Length(a) <= z3.Length(b),
+        from engine.pyvals import fresh
+        suf = fresh("suffix", a.sort())      # skolem witness: b = a ++ suffix
+        return z3.And(z3.PrefixOf(a, b), z3.Length(a) <= z3.Length(b), b == z3.Concat(a, suf),
                       z3.ForAll([j], z3.Implies(z3.And(j >= 0, j < z3.Length(a)), b[j] == a[j])))
     return z3.PrefixOf(a, b)
 
@@ -156,6 +158,41 @@ def sf_lr_cache_ok(ex, st, c):
                                             z3.Implies(z3.Not(z3_truthy(z3.Select(c.tree, m))), z3.Select(c.end, m) == m))))
 
 
-SPEC_FUNCS = {"lr_cache_ok": sf_lr_cache_ok, "cache_ok": sf_cache_ok, "cache_has": sf_cache_has, "cache_end": sf_cache_end, "cache_tree": sf_cache_tree, "em_cached": sf_em_cached, "tk_ok": sf_tk_ok, "can_peek": sf_can_peek, "layout": sf_layout, "cache_wf": sf_cache_wf, "truthy": sf_truthy, "is_none": sf_is_none, "pos_le": sf_pos_le,
+ICOL = z3.Function("indent_col", z3.StringSort(), z3.IntSort(), z3.IntSort())
+
+
+def sf_indent_col(ex, st, line, p):
+    """column reached after the first p characters of `line` when they are all blanks, as the language reference (2.1.8)
+    defines it: a space advances by one, a tab to the next multiple of 8, a form feed resets to 0.  Uninterpreted function
+    whose defining equation is instantiated at the term that occurs (one unfolding, DESIGN 3.2)."""
+    p = lift(p)
+    c = ICOL(line, p)
+    prev = ICOL(line, p - 1)
+    ch = z3.SubString(line, p - 1, 1)
+    st.assume(z3.Implies(p <= 0, c == 0))
+    st.assume(z3.Implies(p > 0, c == z3.If(ch == z3.StringVal(" "), prev + 1,
+                                           z3.If(ch == z3.StringVal("\t"), (prev / 8 + 1) * 8,
+                                                 z3.If(ch == z3.StringVal("\f"), 0, prev)))))
+    st.assume(z3.Implies(p >= 0, c >= 0))
+    return c
+
+
+def sf_indents_wf(ex, st, ind):
+    """the indentation stack is non-empty, starts with 0 and is strictly increasing"""
+    i, j = z3.Int("iw!i"), z3.Int("iw!j")
+    # pairwise form (no induction needed to compare arbitrary entries)
+    return z3.And(z3.Length(ind) >= 1, ind[0] == 0,
+                  z3.ForAll([i, j], z3.Implies(z3.And(i >= 0, i < j, j < z3.Length(ind)), ind[i] < ind[j])))
+
+
+def sf_is_blank_char(ex, st, ch):
+    return z3.Or(ch == z3.StringVal(" "), ch == z3.StringVal("\t"), ch == z3.StringVal("\f"))
+
+
+def sf_last(ex, st, sq):
+    return sq[z3.Length(sq) - 1]
+
+
+SPEC_FUNCS = {"indent_col": sf_indent_col, "indents_wf": sf_indents_wf, "is_blank_char": sf_is_blank_char, "last": sf_last, "lr_cache_ok": sf_lr_cache_ok, "cache_ok": sf_cache_ok, "cache_has": sf_cache_has, "cache_end": sf_cache_end, "cache_tree": sf_cache_tree, "em_cached": sf_em_cached, "tk_ok": sf_tk_ok, "can_peek": sf_can_peek, "layout": sf_layout, "cache_wf": sf_cache_wf, "truthy": sf_truthy, "is_none": sf_is_none, "pos_le": sf_pos_le,
               "endmarker_last": sf_endmarker_last, "endmarker_pulled": sf_endmarker_pulled, "gen_pos": sf_gen_pos,
               "gen_len": sf_gen_len, "gen_item": sf_gen_item, "prefix_of": sf_prefix_of, "tok_type": sf_tok_type}
